@@ -50,7 +50,18 @@ fn same_dest(a: &Dest, b: &Dest) -> bool {
         }
         d.clone()
     }
-    canon(a) == canon(b)
+    // an IPv4-mapped IPv6 address IS that IPv4 destination (it can only be connected to over IPv4): the two
+    // spellings are one destination, not a reinterpretation
+    fn unmap(d: Dest) -> Dest {
+        match d {
+            Dest::Ip(SocketAddr::V6(a)) => match a.ip().to_ipv4_mapped() {
+                Some(v4) => Dest::Ip(SocketAddr::new(IpAddr::V4(v4), a.port())),
+                None => Dest::Ip(SocketAddr::V6(a)),
+            },
+            other => other,
+        }
+    }
+    unmap(canon(a)) == unmap(canon(b))
 }
 
 fn show(d: &Dest) -> String {
